@@ -29,7 +29,8 @@ ASSUMPTIONS = [
 NAMES = ["a.pdf", "a_0001.pdf", "d/a", "x.tar.gz"]
 EXTRA_NAMES = ["", ".", "a.", ".a", "a/b.c/d", "a..b", "/", "a/", "a_0001_0001.pdf", "ü/ö.é", "a.pdf/", "..", "a_0002.pdf"]
 DATA = ["X", "Y"]
-CTS = ["t/1", "t/2"]
+CTS = ["t/1", "t/1;a=b"]      # content types are compared as whole strings: parameters, case and blanks all count
+MORE_CTS = CTS + ["t/2", "t/1; a=b", "T/1", "t/1 ", "", "t/1;a=c"]
 
 
 def _container():
@@ -99,7 +100,7 @@ def gen_sequences(ctx: C.Ctx):
             r = rng.random()
             if r < 0.6:
                 n = rng.choice(pool if rng.random() < 0.5 else NAMES[:2])
-                s.append(["add", n, rng.choice(DATA + ["", "Z"]), rng.choice(CTS)])
+                s.append(["add", n, rng.choice(DATA + ["", "Z"]), rng.choice(MORE_CTS)])
             elif r < 0.9:
                 s.append(["delete", rng.choice(pool if rng.random() < 0.3 else NAMES + ["a_0001_0001.pdf", "a_0002.pdf"])])
             else:
